@@ -125,6 +125,7 @@ void wrap_reset_case(void)
   W->exec_seen = 0;
   W->n_badtarget = W->n_foreign_close = W->n_double_close = W->n_unknown_free = 0;
   W->inchild_done = 0;
+  W->inchild_n = 0;
   memset(cnt, 0, sizeof cnt);
   memset(fd_owned, 0, sizeof fd_owned);
   memset(fd_closed, 0, sizeof fd_closed);
